@@ -200,6 +200,23 @@ Definition j_finally (g : tg) (order : list N) (exc : bool) : tg :=
          upd_joiner g1 JCancelAll true false None (must_cancel g1) exc ord (joined g1) (completed g1) (consumed g1)
   end.
 
+(* one iteration of join()'s loop after next_done() returned task t (rest = the remaining
+   queue): `if self.completed is None: if not (wait is object and ... result() is None): ...` *)
+Definition consume (g : tg) (t : N) (rest : list N) : tg :=
+  let g2 := upd_group g (pending g) (daemons g) rest (semv g) in
+  let cm := match completed g2 with
+            | Some c => Some c
+            | None => if (match pol g2 with PObject => true | _ => false end) && ret_none g2 t
+                      then None else Some t
+            end in
+  upd_joiner g2 (pc g2) true (granted g2) (wake g2) (must_cancel g2) false (unfinished g2)
+             (joined g2) cm (consumed g2 ++ [t]).
+(* `if safe_exception(task) or wait is any or (wait is object and self.completed): return` *)
+Definition stop_after (g : tg) (t : N) : bool :=
+  bad g t || (match pol g with PAny => true | _ => false end)
+  || ((match pol g with PObject => true | _ => false end)
+      && match completed g with Some _ => true | None => false end).
+
 (* the loop of join(): structural recursion on the queue of finished members [dq] = doneq g
    (each iteration of `while True` pops one) *)
 Fixpoint j_loop (dq : list N) (g : tg) (order : list N) : tg :=
@@ -213,18 +230,8 @@ Fixpoint j_loop (dq : list N) (g : tg) (order : list N) : tg :=
     match dq with
     | [] => j_finally g1 order false                      (* next_done returned None *)
     | t :: rest =>
-        let g2 := upd_group g1 (pending g1) (daemons g1) rest (semv g1) in
-        let cm := match completed g2 with
-                  | Some c => Some c
-                  | None => if (match pol g2 with PObject => true | _ => false end) && ret_none g2 t
-                            then None else Some t
-                  end in
-        let g3 := upd_joiner g2 (pc g2) true (granted g2) (wake g2) (must_cancel g2) false (unfinished g2)
-                             (joined g2) cm (consumed g2 ++ [t]) in
-        let stop := bad g3 t || (match pol g3 with PAny => true | _ => false end)
-                    || ((match pol g3 with PObject => true | _ => false end)
-                        && match cm with Some _ => true | None => false end) in
-        if stop then j_finally g3 order false else j_loop rest g3 order
+        let g3 := consume g1 t rest in
+        if stop_after g3 t then j_finally g3 order false else j_loop rest g3 order
     end.
 
 Definition join_entry (g : tg) (order : list N) : tg :=
@@ -359,6 +366,7 @@ Record snap := {
   s_completed : option N; s_finished : list N;   (* ids of all tasks that are done() *)
   s_queue : list handle;                         (* the real loop's ready queue, classified *)
   s_jdone : bool;                                (* the joining task is done() *)
+  s_cancelreq : list N;                          (* unfinished members with a cancellation request *)
 }.
 Definition cb_eqb (a b : cb) : bool :=
   match a, b with OnDone x, OnDone y | Pop x, Pop y => N.eqb x y | _, _ => false end.
@@ -372,7 +380,8 @@ Definition snap_ok (g : tg) (s : snap) : bool :=
   option_eqb N.eqb (completed g) (s_completed s) &&
   set_eqb (map fst (filter (fun x => match m_status (snd x) with Fin _ => true | _ => false end) (members g))) (s_finished s) &&
   list_eqb handle_eqb (queue g) (s_queue s) &&
-  Bool.eqb (match pc g with JEnded _ _ _ => true | _ => false end) (s_jdone s).
+  Bool.eqb (match pc g with JEnded _ _ _ => true | _ => false end) (s_jdone s) &&
+  set_eqb (map fst (filter (fun x => match m_status (snd x) with RunC => true | _ => false end) (members g))) (s_cancelreq s).
 
 Fixpoint trace_firstbad (g : tg) (tr : list (label * option snap)) (i : nat) : option nat :=
   match tr with
